@@ -1,0 +1,23 @@
+//go:build verif
+
+package receiver
+
+// Contracts checked by /verif (lsvc). This file contains comments only and is
+// compiled only with the build tag "verif".
+
+//@ func (r *Receiver) MarkCorrupt
+//@   trusted
+//@   pure
+//@   ghost ncorrupt := ghost_ncorrupt + 1
+
+// Token accounting of one download (ghost_held: tokens acquired and not
+// released): on every error path both tokens are released; on success exactly
+// the decompressed-snapshot token stays held, owned by the stored Update
+// (its OnClose releases it). An undecodable blob is marked corrupt and
+// remembered as handled so that it is not retried for ever.
+//@ func (d *Downloader) LoadOnce
+//@   modifies *
+//@   ensures tokens: ghost_held == old(ghost_held) + ite(r0 == nil, 1, 0)
+//@   ensures corrupt_remembered: ghost_ncorrupt > old(ghost_ncorrupt) ==> r0 != nil && d.last.FullName == ni.FullName
+//@   ensures corrupt_marked_once: ghost_ncorrupt <= old(ghost_ncorrupt) + 1
+//@   at_call receiver.(*Receiver).MarkCorrupt#0 assert decompress_token_released: ghost_held == old(ghost_held) + 1
